@@ -1,14 +1,47 @@
 """C11 — the daily timeseries and the per-emission records tell the same story.
 
-Lean: Props/C11.lean (ledger, emis_split, emis_active, emis_active_emitting_partial, C11_partial,
-C11_counterexample, counts, reconstruct_em, reconstruct).  Model: Model/World.lean.
-Tie: (1) small random worlds driven through real Component/Source objects (several emissions of all
-four classes per component, tag + detection-only events) — per-day row of the real
-update_emissions_state/activate_emissions vs drv_world; (2) whole simulations: the rows of
-timeseries.csv vs drv_world fed with the run's own records and logged events.
-Oracle (independent of the model): ledger on the file's rows, run counts vs record counts,
-reconstruction of every row from the records' start/end dates and rates.
+Lean: Props/C11.lean (ledger, emis_split, emis_active, C11_partial / C11_during_partial,
+C11_counterexample / C11_during_counterexample / f4bWitness_day1, counts, reconstruct_em,
+reconstruct_new, reconstruct_ended, reconstruct, reconstruct_row, emitting_conventions,
+daysEmitting_step).  Model: Model/World.lean.
+
+Tie
+ (1) component stage: small random worlds driven through real Component/Source objects (several
+     emissions of all four classes per component, tag + detection-only events).  Per day the row the
+     real `activate_emissions`/`update_emissions_state` accumulate vs `drv_world rows`; the records the
+     real objects produce (`gen_emis_data` order: active then inactive list) vs `drv_world recs`; the
+     reconstruction of all eight columns from those records (Python, independent) vs `drv_world recrows`
+     (Lean `recRow (records w N)`); the two "emitting" sums (real `is_emitting()` after the update /
+     `days_emitting` increments) vs `drv_world emit`.
+ (2) whole simulations: the rows of timeseries.csv vs `drv_world` fed with the run's own records and
+     logged events; one configuration of every run is forced to have intermittent sources
+     (a repairable and a non-repairable one).
+
+Oracles (independent of the model)
+ * accumulators on real objects: `EmisInfo.leaks_repaired / leaks_nat_repaired / emis_expired`,
+   the activation count and `TsEmisData.active_leaks` of every day equal the status transitions of
+   the emission objects the harness observes; active / inactive lists hold each activated emission
+   exactly once.
+ * ledger and split on the real rows; every column of every row equals the reconstruction from the
+   records (start date, end date, end kind, rate, repairability).
+ * "active and emitting" (general, discrepancy based): the row's emission sum is compared with the
+   sum over active emissions with `is_emitting()` after the update.  Equal: fine.  The difference
+   equals the summed rates of active, not emitting *intermittent* emissions: the known finding F4b
+   (signature C11:emissions:intermittent-not-emitting).  Anything else: VIOLATION C11:emissions:other.
+ * on the two output files alone: ledger per day, per-day New Leaks / Leaks Repaired / Leaks Naturally
+   Repaired / Active Leaks from the records, the emission sums with the same discrepancy rule (the
+   emitting state of an intermittent record is a function of its activation day and the source's
+   on/off durations — validated against the real objects in the component stage), totals.
+
+End-of-day convention.  "Emitting at the end of day n" is read as `is_emitting()` at the moment the
+row of day n is written, i.e. *after* the toggle of that day's update (Lean `emittingAfter`).  The
+other natural reading, "emitted during day n" (the flag the update finds, which is what
+`days_emitting` counts; Lean `emittingDuring`), is one day apart (`emitting_conventions`).  Both are
+evaluated; the stored witness (on 1 / off 2, rate 1, day 1) violates both: the emission neither
+emitted during day 1 (days_emitting unchanged) nor is it emitting at its end, and the row shows 86.4.
 """
+import concurrent.futures as cf
+import json
 from datetime import timedelta
 from fractions import Fraction
 
@@ -17,102 +50,373 @@ from harness.core import LeanDriver
 from harness.props import _emission_common as EC
 
 MANIFEST_ENTRY = {
-    "text": "Lean theorems over any list of emissions with arbitrary event schedules: ledger (active = previous active + new - repaired - naturally repaired - expired, every day incl. day 0), emis_split and emis_active (daily emissions = summed rates of emissions active at the end of the day, split into mitigable/non-mitigable), counts (new/repaired/naturally repaired/expired summed over the run = record counts, by telescoping), reconstruct (every row is a function of the records' start date, end date, rate, repairability; proved from the emission invariants, frozen-after-end and monotone-active-days lemmas). The 'active AND emitting' clause is proved for persistent sources (C11_partial) and refuted for intermittent ones (C11_counterexample, known finding F4b). Tied to the code by per-day correspondence on real Component/Source objects and by whole-run conformance of timeseries.csv with the model fed by the run's own records and logged events; the oracle recomputes ledger, counts and reconstruction from the two output files alone.",
+    "text": "Lean theorems over any list of emissions with arbitrary event schedules: ledger (active = previous active + new - repaired - naturally repaired - expired, every day incl. day 0), emis_split and emis_active (daily emissions = summed rates of emissions active at the end of the day, split into mitigable/non-mitigable), counts (new/repaired/naturally repaired/expired summed over the run = record counts, by telescoping), reconstruct_row (the COMPLETE row of every day - new, active, repaired, naturally repaired, expired, the three emission sums - is the function recRow of the records' start date, end date, end kind, rate, repairability; from reconstruct_em, reconstruct_new, reconstruct_ended, proved from the emission invariants, frozen-after-end and monotone-active-days lemmas). The 'active AND emitting' clause is stated under both readings of 'emitting at the end of the day' (flag after the update = is_emitting() when the row is written; flag during the day = what days_emitting counts; emitting_conventions, daysEmitting_step), proved for persistent sources (C11_partial, C11_during_partial) and refuted for intermittent ones on one witness that violates both readings (f4bWitness_day1, C11_counterexample, C11_during_counterexample; known finding F4b). Tied to the code by per-day correspondence on real Component/Source objects (rows, records, Lean-side reconstruction, emitting sums) and by whole-run conformance of timeseries.csv with the model fed by the run's own records and logged events; the oracles check the real accumulators against observed status transitions, recompute every count column of every day from the two output files alone, and judge the emitting clause by its discrepancy.",
     "design_ref": "DESIGN.md 5.11",
-    "note": "trusted: Lean kernel + standard axioms; model tied by sampled correspondence; timeseries.csv writes floats with 5 decimals, so daily emission sums are compared with the exact rational 86.4 x sum(rate) within 1e-5 (rates dyadic); 'expired' has no timeseries column and is derived from the records",
-    "technique": "Lean 4 proofs (per-emission step lemmas summed over the world, telescoping, invariant-based reconstruction) + differential correspondence + direct oracle on the two output files",
+    "note": "trusted: Lean kernel + standard axioms; model tied by sampled correspondence; timeseries.csv writes floats with 5 decimals, so daily emission sums are compared with the exact rational 86.4 x sum(rate) within 2e-5 (rates dyadic); 'expired' has no timeseries column and is derived from the records; the model has no counters (rows are sums of transition indicators), the accumulator code is covered by the accumulator oracle on real objects only",
+    "technique": "Lean 4 proofs (per-emission step lemmas summed over the world, telescoping, invariant-based reconstruction) + differential correspondence + direct oracles on real objects and on the two output files",
 }
 MODULE = "LdarModel.Props.C11"
 FILE = "LdarModel/Props/C11.lean"
+F4B = "C11:emissions:intermittent-not-emitting"
+
+KINDS = [  # (repairable, intermittent, activeDur, inactiveDur)
+    (True, False, 1, 0), (False, False, 1, 0),
+    (True, True, 1, 1), (True, True, 2, 1), (True, True, 1, 2), (True, True, 2, 3),
+    (False, True, 1, 1), (False, True, 2, 3), (False, True, 1, 2),
+]
+
+
+def small_world(rng):
+    """(n_days, [(emissions, events)]) — 1-3 real Components x 1-4 emissions of any kind;
+    emission = (start, nrd, delay, repairable, intermittent, activeDur, inactiveDur, rate x 1024);
+    event = (day, company, reporting delay) tag request | (day, company, 0, 1) detection only"""
+    n = rng.randint(1, 10)
+    comps = []
+    for _ in range(rng.randint(1, 3)):
+        ems = []
+        for _ in range(rng.randint(1, 4)):
+            rep, inter, ad, idur = rng.choice(KINDS)
+            nrd = rng.randint(1, 9)
+            ems.append((rng.randint(-nrd, n), nrd, rng.randint(0, 3), rep, inter, ad, idur, rng.choice([256, 512, 1024, 2048])))
+        evs = []
+        for _ in range(rng.choice([0, 1, 1, 2, 3])):
+            day = n - 1 if rng.random() < 0.15 else rng.randrange(n)
+            if rng.random() < 0.3:
+                evs.append((day, rng.randint(4, 5), 0, 1))
+            else:
+                evs.append((day, rng.randint(1, 3), rng.choice([0, 0, 1, 2])))
+        evs.sort(key=lambda e: e[0])
+        comps.append((ems, evs))
+    return n, comps
 
 
 # ---------------------------------------------------------------------------------------------
-# component-level correspondence
+# reconstruction of a row from records alone (Python twin of Lean `recRow`)
 # ---------------------------------------------------------------------------------------------
-small_world = EC.small_world
+def emitting_pattern(a0, adur, idur, n):
+    """(emitting during day n, emitting after the update of day n) of an intermittent emission that
+    was activated on day a0 and is still active after day n.  Closed form of IntermittencyMixin:
+    on for max(adur,1) days starting with the activation day, off for max(idur,1) days, ..."""
+    ad, idr = max(adur, 1), max(idur, 1)
+    k = n - a0
+    return (k % (ad + idr)) < ad, ((k + 1) % (ad + idr)) < ad
 
 
-def impl_rows(world):
+def rec_row(recs, n):
+    """all eight columns of day n from records = dicts(start, endDate, kind, rate1024, repairable);
+    kind: None (no end) | 'repaired' | 'natural' | 'expired'"""
+    new = act = rp = nt = ex = s_all = s_mit = s_non = 0
+    for r in recs:
+        a0 = max(r["start"], 0)
+        if a0 == n:
+            new += 1
+        if a0 <= n and (r["endDate"] is None or n + 1 < r["endDate"]):
+            act += 1
+            s_all += r["rate1024"]
+            if r["repairable"]:
+                s_mit += r["rate1024"]
+            else:
+                s_non += r["rate1024"]
+        if r["endDate"] == n + 1:
+            if r["kind"] == "repaired":
+                rp += 1
+            elif r["kind"] == "natural":
+                nt += 1
+            elif r["kind"] == "expired":
+                ex += 1
+    return (new, act, rp, nt, ex, s_all, s_mit, s_non)
+
+
+def rec_emitting_sums(recs, n):
+    """(sum emitting after, sum emitting during, sum of active intermittent records not emitting after,
+    mitigable part of the first, non-mitigable part of the first)"""
+    s_after = s_during = s_quiet = a_mit = a_non = 0
+    for r in recs:
+        a0 = max(r["start"], 0)
+        if a0 <= n and (r["endDate"] is None or n + 1 < r["endDate"]):
+            if r.get("intermittent"):
+                during, after = emitting_pattern(a0, r["adur"], r["idur"], n)
+            else:
+                during = after = True
+            if after:
+                s_after += r["rate1024"]
+                if r["repairable"]:
+                    a_mit += r["rate1024"]
+                else:
+                    a_non += r["rate1024"]
+            else:
+                s_quiet += r["rate1024"]
+            if during:
+                s_during += r["rate1024"]
+    return s_after, s_during, s_quiet, a_mit, a_non
+
+
+def judge_emitting(row_sum, s_after, s_quiet_intermittent):
+    """the discrepancy rule: None (clause holds) | F4B | 'C11:emissions:other'"""
+    if row_sum == s_after:
+        return None
+    if s_quiet_intermittent > 0 and row_sum - s_after == s_quiet_intermittent:
+        return F4B
+    return "C11:emissions:other"
+
+
+# ---------------------------------------------------------------------------------------------
+# component-level stage
+# ---------------------------------------------------------------------------------------------
+def _sc(x):
+    # 86.4 is not a dyadic number: the float sum of rate*86.4 is within rounding error of the exact
+    # value; rates are multiples of 1/4 g/s, so the nearest multiple is unambiguous
+    f = Fraction(x) * 1024 * 10 / 864
+    k = round(f)
+    if abs(f - k) >= Fraction(1, 1000):
+        raise ArithmeticError(x)
+    return int(k)
+
+
+def drive(world):
+    """runs the world on real Components; returns dict(rows, obs, recs, lists_ok)
+    rows: per day the 8 integers the real accumulators show
+    obs : per day what the harness itself observes on the emission objects
+    recs: the records in gen_emis_data order, with the index of the emission in model order"""
     from harness.adapters import emission as E
     from file_processing.output_processing.output_utils import EmisInfo, TsEmisData
     from scheduling.schedule_dataclasses import TaggingInfo
+    from constants.output_file_constants import EMIS_DATA_COL_ACCESSORS as eca
 
     n, comps = world
-    real = []
+    real, allobjs, spec_of = [], [], {}
     for ems, evs in comps:
-        objs = [E.make_emission(st, nrd, dl, rep, inter, ad, idur, rate=r / 1024.0) for (st, nrd, dl, rep, inter, ad, idur, r) in ems]
-        real.append((E.make_component(objs), evs))
-    rows = []
+        objs = [E.make_emission(st, nrd, dl, rep, inter, ad, idur, rate=r / 1024.0)
+                for (st, nrd, dl, rep, inter, ad, idur, r) in ems]
+        for o, sp in zip(objs, ems):
+            spec_of[id(o)] = sp
+            allobjs.append(o)
+        real.append((E.make_component(objs), evs, objs))
+    rows, obs = [], []
+    lists_bad = None
     for dn in range(n):
         cur = E.SIM_START + timedelta(days=dn)
+        s0 = [o.get_status() for o in allobjs]
         new = 0
-        for comp, evs in real:
+        for comp, evs, _ in real:
             new += comp.activate_emissions(cur, 0)
-        for comp, evs in real:
+        s1 = [o.get_status() for o in allobjs]
+        n_ev = 0
+        for comp, evs, _ in real:
             for ev in evs:
                 if ev[0] != dn:
                     continue
+                n_ev += 1
                 if len(ev) > 3 and ev[3] == 1:
                     for e_ in comp._active_emissions:
                         e_.update_detection_records(company=f"c{ev[1]}", detect_date=cur)
                 elif comp._active_emissions:
                     comp.tag_emissions(TaggingInfo(2.0, cur, 5, f"c{ev[1]}", "1", ev[2]))
+        de0 = [o.get_days_emitting() for o in allobjs]
         info, data = EmisInfo(), TsEmisData()
-        for comp, evs in real:
+        for comp, _, _ in real:
             comp.update_emissions_state(info, data)
+        s2 = [o.get_status() for o in allobjs]
+        rows.append((new, data.active_leaks, info.leaks_repaired, info.leaks_nat_repaired, info.emis_expired,
+                     _sc(data.daily_emis), _sc(data.daily_emis_mit), _sc(data.daily_emis_non_mit)))
+        ob = {"new": 0, "active": 0, "rep": 0, "nat": 0, "exp": 0, "s_all": 0, "s_after": 0, "s_during": 0,
+              "s_quiet_interm": 0, "events": n_ev, "closed_form_ok": True}
+        for o, a, b, c, d0 in zip(allobjs, s0, s1, s2, de0):
+            sp = spec_of[id(o)]
+            r1024, inter = sp[7], sp[4]
+            if a == "inactive" and b == "active":
+                ob["new"] += 1
+            if b == "active" and c == "repaired":
+                if getattr(o, "_tagged_by_company", None) == "natural":
+                    ob["nat"] += 1
+                else:
+                    ob["rep"] += 1
+            if b == "active" and c == "expired":
+                ob["exp"] += 1
+            if c == "active":
+                ob["active"] += 1
+                ob["s_all"] += r1024
+                emitted_today = (o.get_days_emitting() - d0) == 1
+                if o.is_emitting():
+                    ob["s_after"] += r1024
+                elif inter:
+                    ob["s_quiet_interm"] += r1024
+                if emitted_today:
+                    ob["s_during"] += r1024
+                if inter:
+                    during, after = emitting_pattern(max(sp[0], 0), sp[5], sp[6], dn)
+                    if (during, after) != (emitted_today, bool(o.is_emitting())):
+                        ob["closed_form_ok"] = False
+        obs.append(ob)
+        # every activated emission sits in exactly one of the two lists of its component
+        for comp, _, objs in real:
+            act_ids = [id(x) for x in comp._active_emissions]
+            ina_ids = [id(x) for x in comp._inactive_emissions]
+            want_act = sorted(id(o) for o in objs if o.get_status() == "active")
+            want_ina = sorted(id(o) for o in objs if o.get_status() in ("repaired", "expired"))
+            if sorted(act_ids) != want_act or sorted(ina_ids) != want_ina:
+                lists_bad = lists_bad if lists_bad is not None else dn
+    # the records, as Component.gen_emis_data lists them
+    end = E.summary_end_date(n)
+    index = {id(o): i for i, o in enumerate(allobjs)}
+    recs = []
+    for comp, _, _ in real:
+        for o in list(comp._active_emissions) + list(comp._inactive_emissions):
+            sd = o.get_summary_dict(end)
+            rep = bool(sd[eca.REPAIRABLE])
+            by = sd[eca.TAGGED_BY] if rep else sd[eca.RECORDED_BY]
+            status = sd[eca.STATUS]
+            kind = None
+            if status == "repaired":
+                kind = "natural" if by == "natural" else "repaired"
+            elif status == "expired":
+                kind = "expired"
+            sp = spec_of[id(o)]
+            recs.append({"i": index[id(o)], "start": E.d2i(sd[eca.DATE_BEG]), "endDate": E.d2i(sd[eca.DATE_REP_EXP]),
+                         "kind": kind, "status": status, "by": by, "rate1024": _sc(sd[eca.T_RATE] * 86.4),
+                         "repairable": rep, "intermittent": sp[4], "adur": sp[5], "idur": sp[6]})
+    return {"rows": rows, "obs": obs, "recs": recs, "lists_bad_day": lists_bad, "n_objs": len(allobjs)}
 
-        def sc(x):
-            # 86.4 is not a dyadic number: the float sum of rate*86.4 is within rounding error of the
-            # exact value; rates are multiples of 1/4 g/s, so the nearest multiple is unambiguous
-            f = Fraction(x) * 1024 * 10 / 864
-            k = round(f)
-            assert abs(f - k) < Fraction(1, 1000), x
-            return int(k)
-        rows.append("%d:%d:%d:%d:%d:%d:%d:%d" % (new, data.active_leaks, info.leaks_repaired, info.leaks_nat_repaired,
-                                               info.emis_expired, sc(data.daily_emis), sc(data.daily_emis_mit),
-                                               sc(data.daily_emis_non_mit)))
-    return ";".join(rows)
+
+def fmt_rows(rows):
+    return ";".join(":".join(str(x) for x in r) for r in rows)
 
 
-def model_lines(world):
+def model_lines(world, ops=("rows",)):
     n, comps = world
     lines = ["world %d" % n]
     for ems, evs in comps:
         evs_s = "[" + ",".join("[" + ",".join(str(x) for x in e) + "]" for e in evs) + "]"
         for (st, nrd, dl, rep, inter, ad, idur, r) in ems:
             lines.append("em %d %d %d %d %d %d %d %d %s" % (st, nrd, dl, int(rep), int(inter), ad, idur, r, evs_s))
-    lines.append("rows")
+    lines += list(ops)
     return lines
+
+
+def impl_rows(world):
+    return fmt_rows(drive(world)["rows"])
+
+
+def _by_str(by):
+    if by in (None, "", "N/A"):
+        return "-"
+    if by == "natural":
+        return "natural"
+    if by == "expired":
+        return "expire"
+    return str(by)
+
+
+def judge_world(ctx, w, d, m_rows, m_recrows, m_recs, m_emit, record=True):
+    """correspondence + oracles for one driven world; returns the list of (signature, what) raised"""
+    raised = []
+
+    def viol(sig, what, extra=None):
+        raised.append((sig, what))
+        if record:
+            ctx.violate(sig, what, dict({"world": w, "rows": fmt_rows(d["rows"])}, **(extra or {})))
+
+    n = w[0]
+    il = fmt_rows(d["rows"])
+    if m_rows is not None and il != m_rows and record:
+        ctx.disagree("world/component-rows", {"world": w}, m_rows, il)
+    # --- records of the real objects vs Lean recOf --------------------------------------------
+    recs = d["recs"]
+    if m_recs is not None and record:
+        by_i = {r["i"]: r for r in recs}
+        want = []
+        for i in range(d["n_objs"]):
+            r = by_i.get(i)
+            want.append(None if r is None else "1:%d:%s:%d:%d:%s:%s" % (
+                r["start"], "-" if r["endDate"] is None else r["endDate"], r["rate1024"], int(r["repairable"]),
+                r["status"], _by_str(r["by"])))
+        got = m_recs.split(";") if m_recs else []
+        ok = len(got) == len(want) and all((g.startswith("0:") if x is None else g == x) for g, x in zip(got, want))
+        if not ok:
+            ctx.disagree("world/records", {"world": w}, m_recs, want)
+    # --- Lean recRow vs the Python reconstruction from the REAL records ----------------------
+    py_rec = [rec_row(recs, k) for k in range(n)]
+    if m_recrows is not None and fmt_rows(py_rec) != m_recrows and record:
+        ctx.disagree("world/recrows", {"world": w}, m_recrows, fmt_rows(py_rec))
+    # --- emitting sums vs Lean --------------------------------------------------------------
+    if m_emit is not None and record:
+        real_emit = ";".join("%d:%d" % (o["s_after"], o["s_during"]) for o in d["obs"])
+        if real_emit != m_emit:
+            ctx.disagree("world/emitting-sums", {"world": w}, m_emit, real_emit)
+    # --- oracles ------------------------------------------------------------------------------
+    if d["lists_bad_day"] is not None:
+        viol("C11:lists", "an emission is missing from / duplicated in the component's active or inactive list",
+             {"day": d["lists_bad_day"]})
+    prev = 0
+    cols = ("new", "active", "repaired", "natural", "expired", "emissions", "mitigable", "non-mitigable")
+    for k, (r, ob, pr) in enumerate(zip(d["rows"], d["obs"], py_rec)):
+        new, act, rep, nat, exp, em, mit, non = r
+        if act != prev + new - rep - nat - exp:
+            viol("C11:ledger:component", "ledger fails on real Component objects", {"day": k})
+        if em != mit + non:
+            viol("C11:split:component", "daily emissions != mitigable + non-mitigable", {"day": k})
+        prev = act
+        # accumulators vs transitions observed on the objects
+        for name, acc, seen in (("new", new, ob["new"]), ("active", act, ob["active"]), ("repaired", rep, ob["rep"]),
+                                ("natural", nat, ob["nat"]), ("expired", exp, ob["exp"])):
+            if acc != seen:
+                viol("C11:accumulator:" + name,
+                     f"the day's '{name}' counter differs from the status transitions of the emission objects",
+                     {"day": k, "counter": acc, "observed": seen})
+        # reconstruction of every column from the records
+        for name, a, b in zip(cols, r, pr):
+            if a != b:
+                viol("C11:reconstruct:component:" + name,
+                     f"column '{name}' of a day cannot be reconstructed from the emission records",
+                     {"day": k, "row": a, "from_records": b})
+        # active and emitting
+        if not ob["closed_form_ok"] and record:
+            ctx.disagree("world/intermittency-closed-form", {"world": w, "day": k}, None, None)
+        sig = judge_emitting(em, ob["s_after"], ob["s_quiet_interm"])
+        if record:
+            ctx.count("emitting_clause_days_checked")
+            if em != ob["s_during"]:
+                ctx.count("emitting_clause_days_failing_days_emitting_reading")
+        if sig == F4B:
+            if record:
+                ctx.count("emitting_clause_days_failing_known_F4b")
+            viol(F4B, "daily emissions include active intermittent emissions that are not emitting",
+                 {"day": k, "row_sum_x1024": em, "emitting_only_sum_x1024": ob["s_after"]})
+        elif sig:
+            viol(sig, "daily emissions differ from the summed rates of the active and emitting emissions by "
+                      "something other than the not-emitting intermittent ones",
+                 {"day": k, "row_sum_x1024": em, "emitting_only_sum_x1024": ob["s_after"],
+                  "not_emitting_intermittent_x1024": ob["s_quiet_interm"]})
+    return raised
 
 
 def component_stage(ctx):
     worlds = [small_world(ctx.rng) for _ in range(ctx.pick(1500, 30000))]
     lines, idx = [], []
     for w in worlds:
-        ml = model_lines(w)
-        lines += ml
-        idx.append(len(lines) - 1)
+        lines += model_lines(w, ("rows", "recrows", "recs", "emit"))
+        idx.append(len(lines) - 4)
     out = LeanDriver("drv_world").run(lines)
     for w, i in zip(worlds, idx):
         ctx.evaluations += 1
         ctx.traces += 1
         try:
-            il = impl_rows(w)
-        except AssertionError:
+            d = drive(w)
+        except ArithmeticError:
             # daily emission float sum not exactly representable: outside the exact grid
             ctx.count("component_world_inexact_sum")
             continue
-        if il != out[i]:
-            ctx.disagree("world/component-rows", {"world": w}, out[i], il)
-        rows = [tuple(int(x) for x in r.split(":")) for r in il.split(";")]
-        prev = 0
-        for r in rows:
-            new, act, rep, nat, exp, em, mit, non = r
-            if act != prev + new - rep - nat - exp:
-                ctx.violate("C11:ledger:component", "ledger fails on real Component objects", {"world": w, "rows": il})
-            if em != mit + non:
-                ctx.violate("C11:split:component", "daily emissions != mitigable + non-mitigable", {"world": w, "rows": il})
-            prev = act
+        judge_world(ctx, w, d, out[i], out[i + 1], out[i + 2], out[i + 3])
+        rows = d["rows"]
+        if any(e[0] == w[0] - 1 for _, evs in w[1] for e in evs):
+            ctx.count("component_worlds_with_event_on_last_day")
+        if rows and rows[0][0] > 0 and any(e[0] < 0 for ems, _ in w[1] for e in ems):
+            ctx.count("component_worlds_with_preexisting_emissions_on_day0")
+        ctx.count("component_days_with_expiry", sum(1 for r in rows if r[4] > 0))
+        ctx.count("component_days_with_program_repair", sum(1 for r in rows if r[2] > 0))
+        ctx.count("component_days_with_natural_repair", sum(1 for r in rows if r[3] > 0))
+        if any(e[4] for ems, _ in w[1] for e in ems):
+            ctx.count("component_worlds_with_intermittent")
         ctx.nontrivial.add(("cw", len(rows), sum(r[0] for r in rows), sum(r[2] for r in rows), sum(r[3] for r in rows),
                             sum(r[4] for r in rows)))
     ctx.sample({"world": worlds[0], "impl_rows": impl_rows(worlds[0])})
@@ -125,6 +429,18 @@ TS = {"new": "New Leaks", "active": "Active Leaks", "rep": "Leaks Repaired", "na
       "emis": "Daily Emissions (Kg Methane)", "mit": "Daily Mitigable Emissions (Kg Methane)",
       "non": "Daily Non-Mitigable Emissions (Kg Methane)"}
 
+FORCED = dict(
+    granular=True,
+    sources=[
+        {"component": "compA", "source": "sA", "repairable": True, "persistent": True, "active": 1, "inactive": 0},
+        {"component": "compB", "source": "sB", "repairable": False, "persistent": False, "active": 2, "inactive": 1},
+        {"component": "compB", "source": "sC", "repairable": True, "persistent": False, "active": 1, "inactive": 2},
+    ],
+    rep={"epr": 0.03125, "duration": 60, "multi": True},
+    nonrep={"epr": 0.015625, "duration": 45, "multi": True},
+    pre_sim_emissions=True,
+)
+
 
 def close(file_val, scaled_sum):
     """file value (5 decimals) vs exact 86.4 * sum(rate), rates given x1024"""
@@ -132,8 +448,188 @@ def close(file_val, scaled_sum):
     return abs(Fraction(file_val) - exact) <= Fraction(1, 50000)
 
 
+def file_records(recs):
+    out = []
+    for r in recs:
+        kind = None
+        if r["status"] == "repaired":
+            kind = "natural" if r["by"] == "natural" else "repaired"
+        elif r["status"] == "expired":
+            kind = "expired"
+        out.append({"start": r["start"], "endDate": r["endDate"], "kind": kind,
+                    "rate1024": int(Fraction(r["rate"]) * 1024), "repairable": r["repairable"],
+                    "intermittent": r["intermittent"], "adur": r["adur"], "idur": r["idur"]})
+    return out
+
+
+def file_oracle(ts, recs, N):
+    """the property evaluated on the two output files alone; returns [(signature, day, what)] (first
+    failing day per signature) and the per-day expired counts derived from the records"""
+    frecs = file_records(recs)
+    exp_on = [0] * N
+    for r in frecs:
+        if r["kind"] == "expired" and r["endDate"] is not None and 1 <= r["endDate"] <= N:
+            exp_on[r["endDate"] - 1] += 1
+    bad = {}
+
+    def flag(sig, n, what):
+        bad.setdefault(sig, (sig, n, what))
+
+    prev = 0
+    stats = {"f4b_days": 0, "during_reading_fail_days": 0, "days": 0}
+    for n, row in enumerate(ts):
+        act, new = int(row[TS["active"]]), int(row[TS["new"]])
+        rp, nt = int(row[TS["rep"]]), int(row[TS["nat"]])
+        if act != prev + new - rp - nt - exp_on[n]:
+            flag("C11:ledger", n, "active != previous active + new - repaired - naturally repaired - expired")
+        prev = act
+        r_new, r_act, r_rp, r_nt, _r_ex, s_all, s_mit, s_non = rec_row(frecs, n)
+        if r_act != act:
+            flag("C11:reconstruct:active-count", n, "Active Leaks differs from the records active at the end of the day")
+        if r_new != new:
+            flag("C11:reconstruct:new", n, "New Leaks differs from the number of records with max(start, 0) = day")
+        if r_rp != rp:
+            flag("C11:reconstruct:repaired", n, "Leaks Repaired differs from the records repaired (not naturally) with end date day+1")
+        if r_nt != nt:
+            flag("C11:reconstruct:natural", n, "Leaks Naturally Repaired differs from the records naturally repaired with end date day+1")
+        # split: the three file values are each rounded to 5 decimals
+        if abs(Fraction(row[TS["emis"]]) - Fraction(row[TS["mit"]]) - Fraction(row[TS["non"]])) > Fraction(3, 100000):
+            flag("C11:split", n, "daily emissions != mitigable + non-mitigable")
+        # mitigable / non-mitigable parts are sums over ALL active records in the code as it stands;
+        # they are judged together with the total by the discrepancy rule below
+        s_after, s_during, s_quiet, a_mit, a_non = rec_emitting_sums(frecs, n)
+        stats["days"] += 1
+        if close(row[TS["emis"]], s_after):
+            # the clause holds on this day; the parts must be those of the emitting records
+            if not (close(row[TS["mit"]], a_mit) and close(row[TS["non"]], a_non)) and \
+                    not (s_quiet == 0 and close(row[TS["mit"]], s_mit) and close(row[TS["non"]], s_non)):
+                flag("C11:reconstruct:emissions-parts", n, "mitigable / non-mitigable parts differ from the records")
+        elif s_quiet > 0 and close(row[TS["emis"]], s_after + s_quiet):
+            stats["f4b_days"] += 1
+            flag(F4B, n, "daily emissions include active intermittent emissions that are not emitting")
+            if not (close(row[TS["mit"]], s_mit) and close(row[TS["non"]], s_non)):
+                flag("C11:reconstruct:emissions-parts", n, "mitigable / non-mitigable parts differ from the records")
+        else:
+            flag("C11:reconstruct:emissions", n,
+                 "daily emissions differ from the summed rates of the active and emitting records by something "
+                 "other than the not-emitting intermittent ones")
+        if not close(row[TS["emis"]], s_during):
+            stats["during_reading_fail_days"] += 1
+    tot = lambda k: sum(int(r[TS[k]]) for r in ts)
+    if tot("new") != len(recs):
+        flag("C11:counts:new", None, "sum of New Leaks != number of emission records")
+    if tot("rep") != sum(1 for r in frecs if r["kind"] == "repaired"):
+        flag("C11:counts:repaired", None, "sum of Leaks Repaired != records repaired by the program")
+    if tot("nat") != sum(1 for r in frecs if r["kind"] == "natural"):
+        flag("C11:counts:natural", None, "sum of Leaks Naturally Repaired != records naturally repaired")
+    return list(bad.values()), exp_on, stats
+
+
+def run_whole_configs(ctx, n):
+    """n generated configurations (the first one forced to contain intermittent sources, a repairable
+    and a non-repairable one) run by the real simulator in parallel"""
+    from harness import wholerun as W
+
+    cfgs = [W.make_config(ctx.rng, **FORCED)] + [W.make_config(ctx.rng) for _ in range(max(0, n - 1))]
+    with cf.ThreadPoolExecutor(max_workers=min(8, max(1, len(cfgs)))) as ex:
+        results = list(ex.map(lambda c: W.run_config(c, debug=True, trace=True), cfgs))
+    good, last = [], ""
+    for k, r in enumerate(results):
+        if r.rc != 0:
+            ctx.count("wholerun_config_crashed")
+            ctx.note("whole run crashed (skipped here; crashes are judged by the property that owns them): "
+                     + r.log.strip().splitlines()[-1][:200])
+            last = r.log
+            r.cleanup()
+            if k == 0:
+                ctx.note("the forced intermittent configuration crashed")
+            continue
+        good.append(r)
+    if not good and results:
+        raise RuntimeError("every whole run failed (infrastructure): " + last[-2000:])
+    return good
+
+
+def judge_program_run(ctx, res, recs_all, prog, sim, method_ids, delays, record=True):
+    """oracle + model conformance for one (program, simulation); returns raised signatures"""
+    ts = res.timeseries(prog, sim)
+    recs = [r for r in recs_all if r["prog"] == prog and r["sim"] == sim]
+    inp = {"cfg": res.cfg, "prog": prog, "sim": sim}
+    N = res.ndays
+    raised = []
+    if ts is None or len(ts) != N:
+        raised.append("C11:timeseries-length")
+        if record:
+            ctx.violate("C11:timeseries-length", "timeseries does not have one row per simulated day", inp)
+        return raised
+    bad, exp_on, stats = file_oracle(ts, recs, N)
+    for sig, day, what in bad:
+        raised.append(sig)
+        if record:
+            ctx.violate(sig, what + (f" (day {day})" if day is not None else ""), dict(inp, day=day))
+    if not record:
+        return raised
+    has_interm = any(r["intermittent"] for r in recs)
+    if has_interm:
+        ctx.count("wholerun_program_with_intermittent_sources")
+        if any(r["intermittent"] and not r["repairable"] for r in recs):
+            ctx.count("wholerun_program_with_intermittent_nonrepairable_records")
+        ctx.count("wholerun_days_failing_known_F4b", stats["f4b_days"])
+        ctx.count("wholerun_days_failing_days_emitting_reading", stats["during_reading_fail_days"])
+    ctx.count("wholerun_days_checked", stats["days"])
+    ctx.count("wholerun_days_with_expiry", sum(1 for x in exp_on if x))
+    if ts and int(ts[0][TS["new"]]) > 0 and any(r["start"] < 0 for r in recs):
+        ctx.count("wholerun_program_with_preexisting_emissions_on_day0")
+    if any(e[1] == N - 1 for r in recs for e in r["tags"]):
+        ctx.count("wholerun_program_with_event_on_last_day")
+    # ---- conformance with the model ------------------------------------------------------------
+    lines = ["world %d" % N]
+    # the sampled repair delay is the configured value that reproduces the record (one driver call
+    # for all records and candidate delays)
+    cand_lines, owner = [], []
+    for k, r in enumerate(recs):
+        for dl in (delays if r["repairable"] else delays[:1]):
+            cand_lines.append(EC.model_line_for_record(r, dl, N, method_ids))
+            owner.append((k, dl))
+    outs = LeanDriver("drv_emission").run(cand_lines)
+    pick = {}
+    for (k, dl), o in zip(owner, outs):
+        if k not in pick and o.split(" | ")[0] == EC.record_summary(recs[k], method_ids):
+            pick[k] = dl
+    for k, r in enumerate(recs):
+        if k not in pick:
+            ctx.disagree("world/record-not-reproduced", inp, None, None)
+            return raised
+        evs = [(e[1], method_ids[e[5]], e[6]) if e[0] == "tag" else (e[1], method_ids[e[5]], 0, 1) for e in r["tags"]]
+        evs_s = "[" + ",".join("[" + ",".join(str(x) for x in e) + "]" for e in evs) + "]"
+        lines.append("em %d %d %d %d %d %d %d %d %s" % (
+            r["start"], r["nrd"], pick[k], int(r["repairable"]), int(r["intermittent"]), r["adur"], r["idur"],
+            int(Fraction(r["rate"]) * 1024), evs_s))
+    lines += ["rows", "recrows"]
+    out = LeanDriver("drv_world").run(lines)
+    m_rows, m_rec = out[-2].split(";"), out[-1]
+    ctx.evaluations += 1
+    ctx.traces += 1
+    for n, (row, mr) in enumerate(zip(ts, m_rows)):
+        new, act, rp, nt, ex, em, mit, non = (int(x) for x in mr.split(":"))
+        same = (new == int(row[TS["new"]]) and act == int(row[TS["active"]]) and rp == int(row[TS["rep"]])
+                and nt == int(row[TS["nat"]]) and ex == exp_on[n] and close(row[TS["emis"]], em)
+                and close(row[TS["mit"]], mit) and close(row[TS["non"]], non))
+        if not same:
+            ctx.disagree("world/whole-run-row", dict(inp, day=n), mr, {k: row[v] for k, v in TS.items()})
+            break
+    # Lean's reconstruction (recRow of the model's records) vs the Python reconstruction from the FILE records
+    py = fmt_rows([rec_row(file_records(recs), n) for n in range(N)])
+    if py != m_rec:
+        ctx.disagree("world/whole-run-recrows", inp, m_rec[:2000], py[:2000])
+    tot = lambda k: sum(int(r[TS[k]]) for r in ts)
+    ctx.nontrivial.add(("wr", prog, len(recs), tot("new"), tot("rep"), tot("nat")))
+    ctx.count("wholerun_program_runs")
+    return raised
+
+
 def wholerun(ctx):
-    results = EC.run_configs(ctx, ctx.pick(2, 10), ndays=None) if False else EC.run_configs(ctx, ctx.pick(2, 10))
+    results = run_whole_configs(ctx, ctx.pick(2, 10))
     try:
         for res in results:
             recs_all = list(EC.records(res))
@@ -141,122 +637,42 @@ def wholerun(ctx):
             delays = [int(x) for x in res.cfg["repair_delay"]]
             for sim in range(res.n_sims):
                 for prog in res.programs:
-                    ts = res.timeseries(prog, sim)
-                    recs = [r for r in recs_all if r["prog"] == prog and r["sim"] == sim]
-                    inp = {"cfg": res.cfg, "prog": prog, "sim": sim}
-                    N = res.ndays
-                    if ts is None or len(ts) != N:
-                        ctx.violate("C11:timeseries-length", "timeseries does not have one row per simulated day", inp)
-                        continue
-                    # ---- oracle on the two files alone -----------------------------------------
-                    exp_on = [0] * N
-                    for r in recs:
-                        if r["status"] == "expired" and r["endDate"] is not None and 1 <= r["endDate"] <= N:
-                            exp_on[r["endDate"] - 1] += 1
-                    prev = 0
-                    bad = None
-                    for n, row in enumerate(ts):
-                        act, new = int(row[TS["active"]]), int(row[TS["new"]])
-                        rp, nt = int(row[TS["rep"]]), int(row[TS["nat"]])
-                        if act != prev + new - rp - nt - exp_on[n] and bad is None:
-                            bad = ("C11:ledger", n)
-                        prev = act
-                        # reconstruction from the records
-                        a_cnt = 0
-                        s_all = s_mit = s_non = 0
-                        s_emitting_only = 0
-                        for r in recs:
-                            a0 = max(r["start"], 0)
-                            if a0 <= n and (r["endDate"] is None or n + 1 < r["endDate"]):
-                                a_cnt += 1
-                                sc = int(Fraction(r["rate"]) * 1024)
-                                s_all += sc
-                                if r["repairable"]:
-                                    s_mit += sc
-                                else:
-                                    s_non += sc
-                        if a_cnt != act and bad is None:
-                            bad = ("C11:reconstruct:active-count", n)
-                        if not (close(row[TS["emis"]], s_all) and close(row[TS["mit"]], s_mit) and close(row[TS["non"]], s_non)) and bad is None:
-                            bad = ("C11:reconstruct:emissions", n)
-                        if not close(Fraction(row[TS["emis"]]) - Fraction(row[TS["mit"]]) - Fraction(row[TS["non"]]) + 0, 0) and bad is None:
-                            if abs(Fraction(row[TS["emis"]]) - Fraction(row[TS["mit"]]) - Fraction(row[TS["non"]])) > Fraction(3, 100000):
-                                bad = ("C11:split", n)
-                    if bad:
-                        ctx.violate(bad[0], f"timeseries and records disagree on day {bad[1]}", dict(inp, day=bad[1]))
-                    tot = lambda k: sum(int(r[TS[k]]) for r in ts)
-                    if tot("new") != len(recs):
-                        ctx.violate("C11:counts:new", "sum of New Leaks != number of emission records", inp)
-                    if tot("rep") != sum(1 for r in recs if r["status"] == "repaired" and r["by"] != "natural"):
-                        ctx.violate("C11:counts:repaired", "sum of Leaks Repaired != records repaired by the program", inp)
-                    if tot("nat") != sum(1 for r in recs if r["status"] == "repaired" and r["by"] == "natural"):
-                        ctx.violate("C11:counts:natural", "sum of Leaks Naturally Repaired != records naturally repaired", inp)
-                    # intermittent sources: the property's 'active and emitting' clause (known F4b)
-                    if any(r["intermittent"] for r in recs):
-                        ctx.count("wholerun_program_with_intermittent_sources")
-                    # ---- conformance with the model --------------------------------------------
-                    lines = ["world %d" % N]
-                    ok = True
-                    for r in recs:
-                        # the sampled repair delay is the configured value that reproduces the record
-                        cand = delays if r["repairable"] else delays[:1]
-                        ml = [EC.model_line_for_record(r, dl, N, method_ids) for dl in cand]
-                        outs = LeanDriver("drv_emission").run(ml)
-                        want = EC.record_summary(r, method_ids)
-                        pick = next((dl for dl, o in zip(cand, outs) if o.split(" | ")[0] == want), None)
-                        if pick is None:
-                            ok = False
-                            break
-                        evs = [(e[1], method_ids[e[5]], e[6]) if e[0] == "tag" else (e[1], method_ids[e[5]], 0, 1) for e in r["tags"]]
-                        evs_s = "[" + ",".join("[" + ",".join(str(x) for x in e) + "]" for e in evs) + "]"
-                        lines.append("em %d %d %d %d %d %d %d %d %s" % (
-                            r["start"], r["nrd"], pick, int(r["repairable"]), int(r["intermittent"]), r["adur"], r["idur"],
-                            int(Fraction(r["rate"]) * 1024), evs_s))
-                    if not ok:
-                        ctx.disagree("world/record-not-reproduced", inp, None, None)
-                        continue
-                    lines.append("rows")
-                    out = LeanDriver("drv_world").run(lines)[-1].split(";")
-                    ctx.evaluations += 1
-                    ctx.traces += 1
-                    for n, (row, mr) in enumerate(zip(ts, out)):
-                        new, act, rp, nt, ex, em, mit, non = (int(x) for x in mr.split(":"))
-                        same = (new == int(row[TS["new"]]) and act == int(row[TS["active"]]) and rp == int(row[TS["rep"]])
-                                and nt == int(row[TS["nat"]]) and ex == exp_on[n] and close(row[TS["emis"]], em)
-                                and close(row[TS["mit"]], mit) and close(row[TS["non"]], non))
-                        if not same:
-                            ctx.disagree("world/whole-run-row", dict(inp, day=n), mr, {k: row[v] for k, v in TS.items()})
-                            break
-                    ctx.nontrivial.add(("wr", prog, len(recs), tot("new"), tot("rep"), tot("nat")))
-                    ctx.count("wholerun_program_runs")
+                    judge_program_run(ctx, res, recs_all, prog, sim, method_ids, delays)
             ctx.sample({"whole_run": {k: res.cfg[k] for k in ("granular", "start", "end", "n_sites")},
-                        "programs": res.programs}, cap=8)
+                        "programs": res.programs,
+                        "intermittent_sources": [s["source"] for s in res.cfg.get("sources", []) if not s["persistent"]]},
+                       cap=8)
+        if not ctx.counts.get("wholerun_program_with_intermittent_sources"):
+            ctx.note("no whole run with intermittent sources in this run (forced configuration crashed?)")
     finally:
         for res in results:
             res.cleanup()
 
 
-def intermittent_witness(ctx):
-    """replay of the C11_counterexample witness on the real classes: an intermittent emission that is
-    active but not emitting still contributes to the daily emissions"""
-    from harness.adapters import emission as E
-    from file_processing.output_processing.output_utils import EmisInfo, TsEmisData
+WITNESS = (4, [([(0, 10, 0, True, True, 1, 2, 1024)], [])])
 
-    em = E.make_emission(0, 10, 0, True, True, 1, 1, rate=1.0)
-    comp = E.make_component([em])
-    comp.activate_emissions(E.SIM_START, 0)
-    info, data = EmisInfo(), TsEmisData()
-    comp.update_emissions_state(info, data)
-    if data.active_leaks == 1 and not em.is_emitting() and data.daily_emis != 0:
-        ctx.violate("C11:emissions:intermittent-not-emitting",
-                    "daily emissions include an active intermittent emission that is not emitting",
-                    {"witness": "intermittent on1/off1 rate 1, day 0", "daily_emis": data.daily_emis})
+
+def intermittent_witness(ctx):
+    """replay of the Lean witness `f4bWitness` (Props/C11.lean: f4bWitness_day1, C11_counterexample,
+    C11_during_counterexample) on the real classes: intermittent, on 1 day / off 2 days, rate 1 g/s.
+    On day 1 it is active, `days_emitting` does not move, `is_emitting()` is False after the update —
+    and the row shows 86.4.  Judged by the general discrepancy oracle (no dedicated signature)."""
+    d = drive(WITNESS)
+    out = LeanDriver("drv_world").run(model_lines(WITNESS, ("rows", "recrows", "recs", "emit")))
+    raised = judge_world(ctx, WITNESS, d, out[-4], out[-3], out[-2], out[-1])
+    ob = d["obs"][1]
+    ok = (d["rows"][1][1] == 1 and d["rows"][1][5] == 1024 and ob["s_after"] == 0 and ob["s_during"] == 0)
+    ctx.count("lean_witness_reproduced_on_real_classes", 1 if ok and any(s == F4B for s, _ in raised) else 0)
+    if not ok:
+        ctx.note("the Lean F4b witness (on 1 / off 2, day 1) no longer reproduces on the real classes")
 
 
 def run(ctx):
-    ctx.rule = ("component stage: random worlds of 1-3 real Components x 1-4 emissions (all 8 kinds), 1-10 days, "
-                "tag + detection-only events, row-by-row comparison; whole-run stage: every (program, simulation) of "
-                "generated configurations; non-trivial/distinct by (#days, #new, #repaired, #natural, #expired)")
+    ctx.rule = ("component stage: random worlds of 1-3 real Components x 1-4 emissions (all 9 kinds), 1-10 days, "
+                "tag + detection-only events (15% on the last day): rows, records, Lean-side reconstruction and emitting "
+                "sums compared; accumulator / list / ledger / reconstruction / emitting oracles per day; whole-run stage: "
+                "every (program, simulation) of generated configurations, the first one forced to have a repairable and a "
+                "non-repairable intermittent source; non-trivial/distinct by (#days, #new, #repaired, #natural, #expired)")
     core.lean_stage(ctx, MODULE, FILE, drivers=["drv_world", "drv_emission"])
     component_stage(ctx)
     intermittent_witness(ctx)
@@ -264,13 +680,42 @@ def run(ctx):
 
 
 def replay(ctx, data):
+    """re-executes the stored input and re-evaluates the oracle; exit 1 iff it still fails"""
     inp = data.get("input", {})
+    sig = data.get("signature")
     if "world" in inp:
         w = inp["world"]
         world = (w[0], [([tuple(e) for e in c[0]], [tuple(e) for e in c[1]]) for c in w[1]])
-        print("implementation rows:", impl_rows(world))
-        print("model rows         :", LeanDriver("drv_world").run(model_lines(world))[-1])
-        return 1
-    print("replay: whole-run input; re-run the configuration in input.cfg with harness.wholerun.run_config")
-    print(str(inp)[:3000])
+        d = drive(world)
+        out = LeanDriver("drv_world").run(model_lines(world, ("rows", "recrows", "recs", "emit")))
+        print("implementation rows:", fmt_rows(d["rows"]))
+        print("model rows         :", out[-4])
+        print("from records (Lean):", out[-3])
+        raised = judge_world(ctx, world, d, out[-4], out[-3], out[-2], out[-1], record=False)
+        for s, what in raised:
+            print("oracle:", s, "-", what)
+        still = any(s == sig for s, _ in raised) if sig else bool(raised) or fmt_rows(d["rows"]) != out[-4]
+        print("replay:", "still fails" if still else "no longer fails")
+        return 1 if still else 0
+    if "cfg" in inp:
+        from harness import wholerun as W
+
+        res = W.run_config(inp["cfg"], debug=True, trace=True)
+        try:
+            if res.rc != 0:
+                print("replay: the stored configuration crashes:\n" + res.log[-1500:])
+                return 2
+            recs_all = list(EC.records(res))
+            method_ids = {m: i + 1 for i, m in enumerate(sorted(res.cfg["methods"]))}
+            delays = [int(x) for x in res.cfg["repair_delay"]]
+            raised = judge_program_run(ctx, res, recs_all, inp["prog"], inp["sim"], method_ids, delays, record=False)
+            for s in raised:
+                print("oracle:", s)
+            still = (sig in raised) if sig else bool(raised)
+            print("replay:", "still fails" if still else "no longer fails")
+            return 1 if still else 0
+        finally:
+            res.cleanup()
+    print("replay: nothing executable in this file (broken-obligation record)")
+    print(json.dumps(data, default=str)[:3000])
     return 1
